@@ -279,3 +279,91 @@ MUTANTS = [
     ("fix_create_after_mixed", "sqlfluff/core/rules/fix.py", '            _src_loc["start_line_pos"] = _src_loc["end_line_pos"]', '            _src_loc["start_line_pos"] = _src_loc["start_line_pos"]'),
     ("fix_create_before_filepos", "sqlfluff/core/rules/fix.py", '            _src_loc["end_file_pos"] = _src_loc["start_file_pos"]', '            _src_loc["end_file_pos"] = _src_loc["end_file_pos"]'),
 ]
+
+
+# ------------------------------------------------------------------ CLI output formats built inside `lint` (region contracts)
+# The click command `lint` builds three machine-readable formats from LintingResult.as_records().  The property's clause
+# for them: every emitted annotation/result carries exactly the record's positions (end falls back to the start only
+# when the record has no end), one output entry per violation record, in order.
+from pyvc.dsl import dict_class  # noqa: E402
+
+# a serialised violation (what SQLBaseError.to_dict / SQLLintError.to_dict above return): the end keys may be absent
+ViolationRec = dict_class("C23ViolationRecord", start_line_no=INT, start_line_pos=INT, end_line_no=TOpt(INT),
+                          end_line_pos=TOpt(INT), code=Text, description=Text, warning=BOOL)
+FileRec = TRec("C23FileRecord", {"filepath": Text, "violations": TList(ViolationRec)}, is_dict=True)
+GithubAnnotation = TRec("C23GithubAnnotation", {"file": Text, "start_line": INT, "start_column": INT, "end_line": INT,
+                                                "end_column": INT, "title": Text, "message": Text,
+                                                "annotation_level": Text}, is_dict=True)
+LintingResult = ref_class("sqlfluff.core.linter.linting_result:LintingResult")
+
+
+@spec(uninterpreted=True)
+def recs_of(r: LintingResult) -> TList(FileRec):
+    """the serialised records of a linting result (one per file, each with its violations in reporting order)"""
+    return r.as_records()
+
+
+@external("sqlfluff.core.linter.linting_result:LintingResult.as_records", PROP)
+class as_records:
+    """assumed: the records are a function of the result; their position content is what the to_dict contracts above
+    establish (LintedFile.get_violations -> SQLBaseError.to_dict)"""
+    types = {"self": LintingResult}
+    ret = TList(FileRec)
+
+    def ensures(self, result):
+        return result == recs_of(self)
+
+
+@external("json:dumps", PROP)
+class json_dumps:
+    """assumed: serialises the value it is given faithfully (no effect on it)"""
+    types = {"obj": TList(GithubAnnotation)}
+    ret = Text
+
+    def ensures(obj, result):
+        return True
+
+
+@spec(recursive=True)
+def flat(recs: TList(FileRec), k: INT, j: INT) -> TList(TTuple(Text, ViolationRec)):
+    """the violation records of the first k files followed by the first j violations of file k, each paired with the
+    path of its file, in reporting order"""
+    return (flat(recs, k, j - 1) + [(recs[k]["filepath"], recs[k]["violations"][j - 1])] if j > 0
+            else ([] if k <= 0 else flat(recs, k - 1, len(recs[k - 1]["violations"]))))
+
+
+@spec
+def ann_carries(a, filepath, v):
+    """the property's clause for one annotation: exactly the record's positions; the end falls back to the start only
+    when the record has no end"""
+    return (a["file"] == filepath
+            and a["start_line"] == v["start_line_no"] and a["start_column"] == v["start_line_pos"]
+            and a["end_line"] == v.get("end_line_no", v["start_line_no"])
+            and a["end_column"] == v.get("end_line_pos", v["start_line_pos"]))
+
+
+@contract("sqlfluff.cli.commands:lint#github-annotation", PROP)
+class lint_github_annotation:
+    # anchored at the first statement of the `--format github-annotation` branch (before the loops the clause is about)
+    region = ('if annotation_level == "error":', None)
+    region_params = ["annotation_level", "result"]
+    types = {"annotation_level": Text, "result": LintingResult, "github_result": TList(GithubAnnotation)}
+    # `lint_result`: the local called `result` (a reserved name in ensures); it is never reassigned in the range
+    ghost_out = {"github_result": TList(GithubAnnotation), "lint_result": ("result", LintingResult)}
+
+    def ensures(annotation_level, lint_result, github_result):
+        want = flat(recs_of(lint_result), len(recs_of(lint_result)), 0)     # every violation record of every file, in order
+        return (len(github_result) == len(want)                             # one entry per violation record ...
+                and all(ann_carries(github_result[q], want[q][0], want[q][1]) for q in range(len(want))))   # ... carrying its positions
+
+    def inv_1(result, github_result, _i, _iter):
+        return (_iter == recs_of(result) and len(github_result) == len(flat(_iter, _i, 0))
+                and all(ann_carries(github_result[q], flat(_iter, _i, 0)[q][0], flat(_iter, _i, 0)[q][1])
+                        for q in range(len(github_result))))
+
+    def inv_2(result, github_result, record, filepath, _i1, _i):
+        recs = recs_of(result)
+        return (0 <= _i1 < len(recs) and record == recs[_i1] and filepath == record["filepath"]
+                and len(github_result) == len(flat(recs, _i1, _i))
+                and all(ann_carries(github_result[q], flat(recs, _i1, _i)[q][0], flat(recs, _i1, _i)[q][1])
+                        for q in range(len(github_result))))
